@@ -399,7 +399,78 @@ def t_iflet(fx):
     return n
 
 
-T = {"alpha": t_alpha, "noise": t_noise, "commute": t_commute, "flip": t_flip, "arms": t_arms, "letify": t_letify, "unlet": t_unlet, "foreach": t_foreach, "iflet": t_iflet, "while": t_while}
+def t_guard(fx):
+    """`if let P = S { if c { A } }` (no else branches, S a local / field place)  ->  `match S { P if c => A, _ => () }`"""
+    n = 0
+    for fn in fx["fns"].values():
+        for x in list(_walk(fn.get("body"))):
+            if x.get("k") != "if" or x.get("el") is not None:
+                continue
+            c = x["c"]
+            if c.get("k") != "letx" or c["init"].get("k") not in ("local", "field"):
+                continue
+            th = x["th"]
+            if th.get("k") != "blk" or th["b"]["stmts"] and th["b"].get("tail") is not None:
+                continue
+            items = list(th["b"]["stmts"]) + ([th["b"]["tail"]] if th["b"].get("tail") is not None else [])
+            if len(items) != 1 or items[0].get("k") != "if" or items[0].get("el") is not None or items[0]["c"].get("k") == "letx":
+                continue
+            inner = items[0]
+            new = {"k": "match", "scrut": c["init"], "src": "Normal", "line": x.get("line"), "t": x.get("t"),
+                   "arms": [{"pat": c["pat"], "guard": inner["c"], "body": inner["th"]},
+                            {"pat": {"k": "wild"}, "guard": None, "body": {"k": "tup", "xs": [], "line": x.get("line")}}]}
+            for k_ in list(x.keys()):
+                del x[k_]
+            x.update(new)
+            n += 1
+    return n
+
+
+def t_inclusive(fx):
+    """`for p in a..b`  ->  `for p in a..=b - 1`   (ranges of a for loop whose end is not a literal 0)"""
+    n = 0
+    for fn in fx["fns"].values():
+        for x in list(_walk(fn.get("body"))):
+            if x.get("k") != "for":
+                continue
+            it = x["iter"]
+            if it.get("k") == "struct" and it.get("path") == "std::ops::Range" and len(it.get("fs") or []) == 2:
+                a, b = it["fs"][0][1], it["fs"][1][1]
+                if b.get("k") == "lit":
+                    continue
+                line = it.get("line")
+                x["iter"] = {"k": "call", "callee": "std::ops::RangeInclusive::<Idx>::new", "f": {"k": "path", "def": "std::ops::RangeInclusive::<Idx>::new", "line": line},
+                             "args": [a, {"k": "bin", "op": "Sub", "l": b, "r": {"k": "lit", "v": "1", "line": line, "t": b.get("t")}, "line": line, "t": b.get("t")}], "line": line}
+                n += 1
+    return n
+
+
+def t_boolmatch(fx):
+    """`if a && b { A } else { B }`  ->  `match (a, b) { (true, true) => A, _ => B }`   (a, b side-effect free places or comparisons are bound first:
+    only conditions whose two operands are locals / fields are rewritten)"""
+    n = 0
+    for fn in fx["fns"].values():
+        for x in list(_walk(fn.get("body"))):
+            if x.get("k") != "if" or x.get("el") is None or x["c"].get("k") != "bin" or x["c"].get("op") != "And":
+                continue
+            a, b = x["c"]["l"], x["c"]["r"]
+            simple = lambda e: e.get("k") in ("local", "field", "lit") or (e.get("k") == "bin" and e.get("op") in ("Lt", "Gt", "Le", "Ge", "Eq", "Ne")
+                                                                               and e["l"].get("k") in ("local", "field", "lit") and e["r"].get("k") in ("local", "field", "lit"))
+            if not simple(a) or not simple(b):
+                continue
+            line = x.get("line")
+            lit = lambda v: {"k": "plit", "v": v, "neg": False}
+            new = {"k": "match", "scrut": {"k": "tup", "xs": [a, b], "line": line}, "src": "Normal", "line": line, "t": x.get("t"),
+                   "arms": [{"pat": {"k": "tuple", "ps": [lit("true"), lit("true")]}, "guard": None, "body": x["th"]},
+                            {"pat": {"k": "wild"}, "guard": None, "body": x["el"]}]}
+            for k_ in list(x.keys()):
+                del x[k_]
+            x.update(new)
+            n += 1
+    return n
+
+
+T = {"guard": t_guard, "inclusive": t_inclusive, "boolmatch": t_boolmatch, "alpha": t_alpha, "noise": t_noise, "commute": t_commute, "flip": t_flip, "arms": t_arms, "letify": t_letify, "unlet": t_unlet, "foreach": t_foreach, "iflet": t_iflet, "while": t_while}
 
 
 def run(which, repo="/repo", quiet=False, props=None):
